@@ -70,6 +70,7 @@ type Contract struct {
 	Inline        bool
 	Strict        bool
 	Trusted       bool
+	ModAny        bool // "modifies-anything": no frame is claimed; callers forget every component the body may write
 	AssumedFrame  bool // the modifies clauses are used by callers but not checked against this body (listed as an assumption)
 	Lemma         bool
 	Allocates     bool
@@ -273,6 +274,8 @@ func parseContractFile(path, pkgPath string) ([]*Contract, error) {
 			cur.Trusted = true
 		case "assumed-frame":
 			cur.AssumedFrame = true
+		case "modifies-anything":
+			cur.ModAny = true
 		case "abstract":
 			cur.Abstract = true
 		case "allocates":
